@@ -32,13 +32,12 @@ impl Axecutor {
     fn instr_cmovne_r16_rm16(&mut self, i: Instruction) -> Result<(), AxError> {
         debug_assert_eq!(i.code(), Cmovne_r16_rm16);
 
-        if self.state.rflags & FLAG_ZF == 0 {
-            calculate_r_rm![u16; self; i; |_, s| {
-                s
-            }; (set: FLAGS_UNAFFECTED; clear: 0)]
-        } else {
-            Ok(())
-        }
+        // The source is always read (it can fault) and the destination always written
+        // (a 32-bit destination is zero-extended even if the condition is false)
+        let condition = self.state.rflags & FLAG_ZF == 0;
+        calculate_r_rm![u16; self; i; |d, s| {
+            if condition { s } else { d }
+        }; (set: FLAGS_UNAFFECTED; clear: 0)]
     }
 
     /// CMOVNE r32, r/m32
@@ -47,13 +46,12 @@ impl Axecutor {
     fn instr_cmovne_r32_rm32(&mut self, i: Instruction) -> Result<(), AxError> {
         debug_assert_eq!(i.code(), Cmovne_r32_rm32);
 
-        if self.state.rflags & FLAG_ZF == 0 {
-            calculate_r_rm![u32; self; i; |_, s| {
-                s
-            }; (set: FLAGS_UNAFFECTED; clear: 0)]
-        } else {
-            Ok(())
-        }
+        // The source is always read (it can fault) and the destination always written
+        // (a 32-bit destination is zero-extended even if the condition is false)
+        let condition = self.state.rflags & FLAG_ZF == 0;
+        calculate_r_rm![u32; self; i; |d, s| {
+            if condition { s } else { d }
+        }; (set: FLAGS_UNAFFECTED; clear: 0)]
     }
 
     /// CMOVNE r64, r/m64
@@ -62,13 +60,12 @@ impl Axecutor {
     fn instr_cmovne_r64_rm64(&mut self, i: Instruction) -> Result<(), AxError> {
         debug_assert_eq!(i.code(), Cmovne_r64_rm64);
 
-        if self.state.rflags & FLAG_ZF == 0 {
-            calculate_r_rm![u64; self; i; |_, s| {
-                s
-            }; (set: FLAGS_UNAFFECTED; clear: 0)]
-        } else {
-            Ok(())
-        }
+        // The source is always read (it can fault) and the destination always written
+        // (a 32-bit destination is zero-extended even if the condition is false)
+        let condition = self.state.rflags & FLAG_ZF == 0;
+        calculate_r_rm![u64; self; i; |d, s| {
+            if condition { s } else { d }
+        }; (set: FLAGS_UNAFFECTED; clear: 0)]
     }
 }
 
